@@ -644,7 +644,8 @@ def r3_bounds(ctx, ents, cl, krate_prefix="cascette_", discharged=DISCHARGED_R3)
     cnt = collections.Counter()
     ocnt = collections.Counter()
     nd = collections.Counter()
-    ctx.rule("C02.R4", "no addition / multiplication in u8 / u16 / u32 on input-derived operands that can exceed the type's range (E-bounds value ranges)")
+    ctx.rule("C02.R4", "no addition / multiplication / subtraction in u8 / u16 / u32 on input-derived operands that can leave the type's range, and no u64 / usize "
+                       "addition / multiplication with a 64-bit input number (parsed from text or read as a u64) as operand (E-bounds value ranges)")
     for bid in sorted(res):
         a = res[bid]
         for sk in a.sinks:
@@ -654,6 +655,18 @@ def r3_bounds(ctx, ents, cl, krate_prefix="cascette_", discharged=DISCHARGED_R3)
                 # subtractions are not decided (their count is reported).
                 m_ = re.match(r"^(Add|Mul|Sub) in (u8|u16|u32)$", sk.what)
                 strict_o = sorted(t for t in sk.taint if strict_input(t, br))
+                if not m_ and re.match(r"^(Add|Mul) in (u64|usize|u128)$", sk.what):
+                    # wide arithmetic wraps only with operands that are themselves 64-bit input numbers (a u64 parsed from text, a u64 field):
+                    # positions, lengths and values widened from <= 32 bits cannot get there
+                    wide_in = []
+                    for g in sk.goals:
+                        for at_, v_ in (g.t.items() if g is not None else ()):
+                            kd = a.atom_src.get(at_, ("", ""))[0]
+                            if v_ > 0 and kd != "position" and (kd == "input" or strict_input(kd, br)) and a.atom_ty.get(at_, "") in ("u64", "usize", "u128"):
+                                wide_in.append(kd)
+                    if wide_in:
+                        m_ = re.match(r"^(Add|Mul) in (u64|usize|u128)$", sk.what)
+                        strict_o = sorted(set(wide_in))
                 if not m_ or not strict_o:
                     ocnt["proven" if sk.proven else "not decided"] += 1
                     continue
